@@ -104,37 +104,39 @@ def _build_inner(K, xs, klabel):
     return pre + [st, log("ak", i)]
 
 
-def _wrap_encl(E, B, llabel):
+def _wrap_encl(E, B, llabel, sfx="", lname="L0"):
     def L(st):
-        return label("L0", st) if llabel else st
+        return label(lname, st) if llabel else st
 
-    j = id_("j")
+    jn, exn = "j" + sfx, "ex" + sfx
+    et, eb, ef = "et" + sfx, "eb" + sfx, "ef" + sfx
+    j = id_(jn)
     if E == "none":
         return B
     if E == "if":
-        return [L(if_(bin_(">", id_("a"), num(0)), block(log("et", num(0)), *B, log("eb", num(0))), block(log("ee", num(0)))))]
+        return [L(if_(bin_(">", id_("a"), num(0)), block(log(et, num(0)), *B, log(eb, num(0))), block(log("ee" + sfx, num(0)))))]
     if E == "while":
-        return [var(("j", num(0))), L(while_(bin_("<", j, num(2)), block(expr(upd("++", j)), log("et", j), *B, log("eb", j))))]
+        return [var((jn, num(0))), L(while_(bin_("<", j, num(2)), block(expr(upd("++", j)), log(et, j), *B, log(eb, j))))]
     if E == "dowhile":
-        return [var(("j", num(0))), L(dowhile(block(expr(upd("++", j)), log("et", j), *B, log("eb", j)), bin_("<", j, num(2))))]
+        return [var((jn, num(0))), L(dowhile(block(expr(upd("++", j)), log(et, j), *B, log(eb, j)), bin_("<", j, num(2))))]
     if E == "for":
-        return [L(for_(var(("j", num(0))), bin_("<", j, num(2)), upd("++", j), block(log("et", j), *B, log("eb", j))))]
+        return [L(for_(var((jn, num(0))), bin_("<", j, num(2)), upd("++", j), block(log(et, j), *B, log(eb, j))))]
     if E == "forin":
-        return [L(forin(("vardecl", "j"), obj(init("m", num(1)), init("n", num(2))), block(log("et", j), *B, log("eb", j))))]
+        return [L(forin(("vardecl", jn), obj(init("m", num(1)), init("n", num(2))), block(log(et, j), *B, log(eb, j))))]
     if E == "forof":
-        return [L(forof(("vardecl", "j"), arr(num(7), num(8)), block(log("et", j), *B, log("eb", j))))]
+        return [L(forof(("vardecl", jn), arr(num(7), num(8)), block(log(et, j), *B, log(eb, j))))]
     if E == "switch":
-        return [L(switch(id_("a"), [(num(1), [log("et", num(0))] + B + [log("eb", num(0)), brk()]), (None, [log("ed", num(0))])]))]
+        return [L(switch(id_("a"), [(num(1), [log(et, num(0))] + B + [log(eb, num(0)), brk()]), (None, [log("ed" + sfx, num(0))])]))]
     if E == "try":
-        return [L(try_([log("et", num(0))] + B + [log("eb", num(0))], None, [log("ef", num(0))]))]
+        return [L(try_([log(et, num(0))] + B + [log(eb, num(0))], None, [log(ef, num(0))]))]
     if E == "trycatch":
-        return [L(try_([log("et", num(0))] + B + [log("eb", num(0))], ("ex", [log("ec", id_("ex"))]), [log("ef", num(0))]))]
+        return [L(try_([log(et, num(0))] + B + [log(eb, num(0))], (exn, [log("ec" + sfx, id_(exn))]), [log(ef, num(0))]))]
     if E == "catch":
-        return [L(try_([throw(s_("c"))], ("ex", [log("et", id_("ex"))] + B + [log("eb", num(0))]), None))]
+        return [L(try_([throw(s_("c"))], (exn, [log(et, id_(exn))] + B + [log(eb, num(0))]), None))]
     if E == "finally":
-        return [L(try_([log("et", num(0))], None, [log("ef", num(0))] + B + [log("eb", num(0))]))]
+        return [L(try_([log(et, num(0))], None, [log(ef, num(0))] + B + [log(eb, num(0))]))]
     if E == "lblock":
-        return [L(block(log("et", num(0)), *B, log("eb", num(0))))]
+        return [L(block(log(et, num(0)), *B, log(eb, num(0))))]
     raise KeyError(E)
 
 
@@ -217,6 +219,52 @@ def skeletons():
                         p = skeleton(K, X, E, C, P)
                         if p is not None:
                             yield p
+
+
+def skeleton2(K, X, E1, E2):
+    """Exit crossing two enclosing constructs: K in E1 in E2 (label L0 on E2)."""
+    if X == "breakL":
+        xs = [brk("L0")]
+    elif X == "continueL":
+        if E2 not in LOOPS:
+            return None
+        xs = [cont("L0")]
+    elif X == "return":
+        xs = [ret(num(42))]
+    elif X == "throw":
+        xs = [throw(s_("T"))]
+    elif X == "break1":
+        # leaves E1 only (label L1 on E1): the outer construct goes on
+        xs = [brk("L1")]
+    else:
+        raise KeyError(X)
+    B = _build_inner(K, xs, False)
+    inner = _wrap_encl(E1, B, X == "break1", "", "L1")
+    outer = _wrap_encl(E2, inner, X in ("breakL", "continueL"), "2", "L0")
+    fbody = [log("f", id_("a"))] + outer + [log("fe", id_("a")), ret(num(7))]
+    body = [
+        fdecl("f", ["a"], fbody),
+        fdecl("caller", ["k"], [
+            var("r"),
+            try_([expr(assign(id_("r"), arr(num(5), call(id_("f"), id_("k")), num(6))))], ("e", [log("caught", id_("e")), expr(assign(id_("r"), num(-1)))]), None),
+            log("r", id_("r")),
+            ret(id_("r")),
+        ]),
+        log("c1", call(id_("caller"), num(1))),
+        expr(call(id_("caller"), num(1))),
+    ]
+    tags = ["K:" + K, "X:" + X, "E:" + E1, "E2:" + E2, "abrupt", "%s-x-%s" % (X, K), "%s-in-%s" % (K, E1), "%s-in-%s" % (E1, E2), "cross2"]
+    return prog("skel2", "skel2|%s|%s|%s|%s" % (K, X, E1, E2), body, tags)
+
+
+def skeletons2():
+    for K in KINDS:
+        for X in ("breakL", "continueL", "return", "throw", "break1"):
+            for E1 in ENCL[1:]:
+                for E2 in ENCL[1:]:
+                    p = skeleton2(K, X, E1, E2)
+                    if p is not None:
+                        yield p
 
 
 # ====================================================================== switch product
@@ -434,6 +482,102 @@ def _nfe_case(T, kind):
     return prog("closure", "closure|nfe|%s|%s" % (T, kind), body, ["closure", "src-nfe", "site-" + T, "kind-" + kind, "nfe"])
 
 
+def closure_expr_sites():
+    """A closure created inside an expression that sits in the head of a
+    statement (if/while/for/switch/return/...): the capture analysis has to
+    look there too.  The creator changes the variable afterwards; the closure
+    must see the change (shared cell, not a copy)."""
+    v = id_("v")
+
+    def mkf(kind):
+        return arrow([], v) if kind == "arrow" else fn(None, [], [ret(v)])
+
+    def keep(f):  # keep(f) stores the closure in `got` and returns true
+        return call(id_("keep"), f)
+
+    sites = {
+        "if-test": lambda f: [if_(keep(f), block(log("in", num(1))))],
+        "while-test": lambda f: [var(("n", num(0))), while_(logic("&&", bin_("<", id_("n"), num(1)), keep(f)), block(expr(upd("++", id_("n")))))],
+        "dowhile-test": lambda f: [var(("n", num(0))), dowhile(block(expr(upd("++", id_("n")))), logic("&&", keep(f), bin_("<", id_("n"), num(1))))],
+        "for-init": lambda f: [for_(var(("n", num(0)), ("h", f)), bin_("<", id_("n"), num(1)), upd("++", id_("n")), block(expr(keep(id_("h")))))],
+        "for-init-expr": lambda f: [var("n"), for_(assign(id_("n"), cond(keep(f), num(0), num(5))), bin_("<", id_("n"), num(1)), upd("++", id_("n")), block(log("b", id_("n"))))],
+        "for-test": lambda f: [for_(var(("n", num(0))), logic("&&", bin_("<", id_("n"), num(1)), keep(f)), upd("++", id_("n")), block(log("b", id_("n"))))],
+        "for-update": lambda f: [for_(var(("n", num(0))), bin_("<", id_("n"), num(1)), seq(keep(f), upd("++", id_("n"))), block(log("b", id_("n"))))],
+        "forin-object": lambda f: [forin(("vardecl", "n"), obj(init("k", f)), block(log("b", id_("n")))), expr(keep(f))],
+        "forof-array": lambda f: [forof(("vardecl", "n"), arr(f), block(expr(keep(id_("n")))))],
+        "switch-disc": lambda f: [switch(keep(f), [(b_(True), [log("c", num(1))])])],
+        "switch-case": lambda f: [switch(b_(True), [(keep(f), [log("c", num(1))])])],
+        "return-arg": lambda f: [expr(keep(call(fn(None, [], [ret(f)]))))],
+        "throw-arg": lambda f: [try_([throw(f)], ("e", [expr(keep(id_("e")))]), None)],
+        "cond-test": lambda f: [log("c", cond(keep(f), num(1), num(2)))],
+        "logic-rhs": lambda f: [log("c", logic("&&", b_(True), keep(f)))],
+        "call-arg": lambda f: [expr(keep(f))],
+        "array-elem": lambda f: [expr(keep(idx(arr(num(0), f), num(1))))],
+        "object-value": lambda f: [expr(keep(dot(obj(init("m", f)), "m")))],
+        "var-init": lambda f: [var(("h", f)), expr(keep(id_("h")))],
+        "assign-rhs": lambda f: [var("h"), expr(assign(id_("h"), f)), expr(keep(id_("h")))],
+        "label-if": lambda f: [label("Q", if_(keep(f), block(brk("Q"))))],
+        "try-block-if": lambda f: [try_([if_(keep(f), block(log("in", num(1))))], None, [log("fin", num(1))])],
+    }
+    for name, site in sites.items():
+        for kind in ("fnexpr", "arrow"):
+            for where in ("function", "program"):
+                core_ = [var(("v", num(1))), var("got"), var(("keep", fn(None, ["f"], [expr(assign(id_("got"), id_("f"))), ret(b_(True))])))]
+                core_ += site(mkf(kind))
+                core_ += [log("before", call(id_("got"))), expr(assign(v, bin_("+", v, num(10)))), log("after", call(id_("got")))]
+                if where == "function":
+                    body = [fdecl("mk", ["p"], core_ + [ret(id_("got"))]), var(("g", call(id_("mk"), num(0)))), log("late", call(id_("g"))), expr(call(id_("g")))]
+                else:
+                    body = core_ + [expr(call(id_("got")))]
+                yield prog("closure", "closure|site2|%s|%s|%s" % (name, kind, where), body,
+                           ["closure", "site2-" + name, "kind-" + kind, "closure-in-expression", "where-" + where])
+
+
+def scoping_cases():
+    """Shadowing, redeclaration and visibility rules around functions and catch."""
+    x = id_("x")
+    cases = {
+        "catch-shadows-var": [var(("x", num(5))), try_([throw(num(1))], ("x", [log("in", x), expr(assign(x, num(2))), log("in2", x)]), None), log("out", x), expr(x)],
+        "catch-shadows-param": [fdecl("f", ["x"], [try_([throw(num(1))], ("x", [log("in", x)]), None), log("out", x), ret(x)]), expr(call(id_("f"), num(9)))],
+        "catch-shadow-closure": [fdecl("f", ["x"], [var("g"), try_([throw(num(1))], ("x", [expr(assign(id_("g"), fn(None, [], [ret(x)])))]), None),
+                                                      expr(assign(x, num(7))), ret(arr(call(id_("g")), x))]), expr(call(id_("f"), num(9)))],
+        "var-in-catch-hoists": [fdecl("f", [], [try_([throw(num(1))], ("e", [var(("y", bin_("+", id_("e"), num(1))))]), None), ret(id_("y"))]), expr(call(id_("f")))],
+        "two-catches-same-name": [fdecl("f", [], [var(("r", arr())), try_([throw(num(1))], ("e", [expr(mcall(id_("r"), "push", id_("e")))]), None),
+                                                    try_([throw(num(2))], ("e", [expr(mcall(id_("r"), "push", id_("e")))]), None), ret(id_("r"))]), expr(call(id_("f")))],
+        "nested-catch-same-name": [try_([throw(num(1))], ("e", [try_([throw(num(2))], ("e", [log("inner", id_("e"))]), None), log("outer", id_("e"))]), None), expr(num(0))],
+        "param-shadows-outer": [var(("x", num(1))), fdecl("f", ["x"], [expr(assign(x, bin_("+", x, num(1)))), ret(x)]), log("r", call(id_("f"), num(10))), expr(x)],
+        "var-shadows-outer": [var(("x", num(1))), fdecl("f", [], [log("pre", x), var(("x", num(2))), ret(x)]), log("r", call(id_("f"))), expr(x)],
+        "var-shadows-outer-closure": [var(("x", num(1))), fdecl("f", [], [var(("g", fn(None, [], [ret(x)]))), var(("x", num(2))), ret(call(id_("g")))]), expr(call(id_("f")))],
+        "inner-fn-shadows-outer-fn": [fdecl("h", [], [ret(num(1))]), fdecl("f", [], [ret(call(id_("h"))), fdecl("h", [], [ret(num(2))])]), expr(arr(call(id_("f")), call(id_("h"))))],
+        "nfe-name-not-outside": [var(("f", fn("me", [], [ret(un("typeof", id_("me")))]))), log("in", call(id_("f"))), expr(un("typeof", id_("me")))],
+        "nfe-shadowed-by-param": [var(("f", fn("me", ["me"], [ret(id_("me"))]))), expr(call(id_("f"), num(3)))],
+        "nfe-shadowed-by-var": [var(("f", fn("me", [], [var(("me", num(4))), ret(id_("me"))]))), expr(call(id_("f")))],
+        "nfe-recursion-after-rebind": [var(("f", fn("me", ["n"], [ret(cond(bin_("<=", id_("n"), num(0)), num(0), bin_("+", num(1), call(id_("me"), bin_("-", id_("n"), num(1))))))]))),
+                                       var(("g", id_("f"))), expr(assign(id_("f"), NULL)), expr(call(id_("g"), num(3)))],
+        "param-default-undefined": [fdecl("f", ["a", "b"], [ret(arr(un("typeof", id_("a")), un("typeof", id_("b")), dot(id_("arguments"), "length")))]), expr(call(id_("f"), num(1)))],
+        "extra-args": [fdecl("f", ["a"], [ret(arr(id_("a"), dot(id_("arguments"), "length"), idx(id_("arguments"), num(2))))]), expr(call(id_("f"), num(1), num(2), num(3)))],
+        "arguments-not-aliased": [fdecl("f", ["a"], [expr(assign(id_("a"), num(9))), ret(arr(id_("a"), idx(id_("arguments"), num(0))))]), expr(call(id_("f"), num(1)))],
+        "var-redecl-keeps-param": [fdecl("f", ["a"], [var("a"), ret(id_("a"))]), expr(call(id_("f"), num(3)))],
+        "var-redecl-in-loop": [fdecl("f", [], [var(("r", arr())), for_(var(("i", num(0))), bin_("<", id_("i"), num(3)), upd("++", id_("i")),
+                                                                   block(var("t"), expr(mcall(id_("r"), "push", un("typeof", id_("t")))), expr(assign(id_("t"), id_("i"))))), ret(id_("r"))]),
+                               expr(call(id_("f")))],
+        "var-redecl-global": [var(("g0", b_(True))), var("g0"), expr(id_("g0"))],
+        "conditional-var": [fdecl("f", ["c"], [if_(id_("c"), block(var(("y", num(1))))), ret(un("typeof", id_("y")))]), expr(arr(call(id_("f"), b_(True)), call(id_("f"), b_(False))))],
+        "global-read-before-decl": [fdecl("f", [], [ret(un("typeof", id_("late")))]), var(("r", call(id_("f")))), var(("late", num(1))), expr(arr(id_("r"), call(id_("f"))))],
+        "global-assign-in-function": [var(("x", num(1))), fdecl("f", [], [expr(assign(x, bin_("+", x, num(1)))), ret(x)]), expr(arr(call(id_("f")), call(id_("f")), x))],
+        "undeclared-assign-throws": [fdecl("f", [], [expr(assign(id_("nope"), num(1)))]), try_([expr(call(id_("f")))], ("e", [log("n", dot(id_("e"), "name"))]), None), expr(un("typeof", id_("nope")))],
+        "closure-per-call": [fdecl("mk", [], [var(("c", num(0))), ret(fn(None, [], [ret(upd("++", id_("c"), True))]))]), var(("a", call(id_("mk")))), var(("b", call(id_("mk")))),
+                             expr(arr(call(id_("a")), call(id_("a")), call(id_("b"))))],
+        "recursion-own-locals": [fdecl("f", ["n"], [var(("loc", id_("n"))), if_(bin_(">", id_("n"), num(0)), block(expr(call(id_("f"), bin_("-", id_("n"), num(1)))))), ret(id_("loc"))]),
+                                 expr(call(id_("f"), num(3)))],
+        "recursive-closures": [fdecl("f", ["n", "acc"], [expr(mcall(id_("acc"), "push", fn(None, [], [ret(id_("n"))]))), if_(bin_(">", id_("n"), num(0)), block(expr(call(id_("f"), bin_("-", id_("n"), num(1)), id_("acc"))))),
+                                                          ret(id_("acc"))]),
+                               expr(mcall(call(id_("f"), num(2), arr()), "map", fn(None, ["g"], [ret(call(id_("g")))])))],
+    }
+    for name, body in cases.items():
+        yield prog("scope", "scope|" + name, [log("start", num(0))] + body, ["scope", "scope-" + name])
+
+
 # =================================================================== completion values
 def completion_cases():
     i = id_("i")
@@ -487,7 +631,8 @@ def completion_cases():
 
 
 def all_campaigns(seed, n_random, thorough=True):
-    out = [("skel", skeletons()), ("switch", switch_product()), ("closure", closure_matrix()), ("completion", completion_cases())]
+    out = [("skel", skeletons()), ("skel2", skeletons2()), ("switch", switch_product()), ("closure", closure_matrix()), ("closure", closure_expr_sites()),
+           ("scope", scoping_cases()), ("completion", completion_cases())]
     if n_random and "random_programs" in globals():
         out.append(("random", random_programs(seed, n_random)))
     return out
@@ -1063,6 +1208,8 @@ def describe(p):
     parts = p["id"].split("|")
     if parts[0] == "skel":
         return ["skel", parts[1], parts[2], parts[3], parts[4], int(parts[5])]
+    if parts[0] == "skel2":
+        return ["skel2", parts[1], parts[2], parts[3], parts[4]]
     if parts[0] == "random":
         return ["random", int(parts[1])]
     return [parts[0], p["id"]]
@@ -1075,6 +1222,8 @@ def from_desc(d):
     k = d[0]
     if k == "skel":
         return skeleton(d[1], d[2], d[3], d[4], d[5])
+    if k == "skel2":
+        return skeleton2(d[1], d[2], d[3], d[4])
     if k == "random":
         return random_program(d[1])
     if k == "switch":
@@ -1082,7 +1231,7 @@ def from_desc(d):
         dval = {"1": num(1), "2": num(2), "3": num(3), "9": num(9), "s1": s_("1")}[dname]
         return _switch_case(dpos, int(bits), dname, dval, ctx)
     if not _BY_ID:
-        for g in (closure_matrix(), completion_cases()):
+        for g in (closure_matrix(), closure_expr_sites(), scoping_cases(), completion_cases()):
             for p in g:
                 _BY_ID[p["id"]] = p
     return _BY_ID[d[1]]
